@@ -14,6 +14,7 @@ def run(res, tier, replay=None):
     # port whose fileno slot is not traced gets its descriptor finalized while the port is still in use
     f3.r5_type_table(prog, res, prop="C16")
     c16.derived_cpointers(prog, res)
+    c16.dead_reentry(prog, res, floor=8)
     res.assumptions = common.ASSUMPTIONS
     res.explanation = (
         "C16 structural clauses: (a) on every CFG path of sexp_gc the calls occur in the order mark*, weak reset, "
@@ -25,7 +26,7 @@ def run(res, tier, replay=None):
         "spot, and goes up in the function that stores a fileno into a port; (e) a non-owning cpointer that wraps memory reached "
         "through another cpointer's C value (generated struct-field getters, readdir) names that object as its parent; (d) every reference field of every type row is inside the range "
         "the marker traces (the clause shared with C02.R5: an untraced owner slot lets the owned object be finalized while "
-        "its owner is live). Not decided: when a key becomes unreachable, descriptor "
+        "its owner is live). (f) no loop over a cursor (`for (; h; h = h->next)`) can be re-entered with the cursor exhausted - the collector's second finalization pass, which closes dynamic libraries, starts over at the first segment. Not decided: when a key becomes unreachable, descriptor "
         "exhaustion behaviour.")
     if tier == "thorough":
         common.thorough_mutations(res, "C16", {
@@ -34,4 +35,5 @@ def run(res, tier, replay=None):
             "C16.c": lambda p, r: c16.release_once(p, r),
             "C16.d": lambda p, r: f3.r5_type_table(p, r, prop="C16"),
             "C16.e": lambda p, r: c16.derived_cpointers(p, r, floor=0),
+            "C16.f": lambda p, r: c16.dead_reentry(p, r, floor=0),
         })
